@@ -379,6 +379,14 @@ class Sem:
                 return self._is_comparison(e.left) and self._is_comparison(e.right)
         return False
 
+    def _left_is_int(self, cond, env):
+        n = type(cond).__name__
+        if n == "BinaryOp" and cond.op in CMP_OPS:
+            return isinstance(self.expr(cond.left, env), IntV)
+        if n == "BinaryOp" and cond.op in ("&&", "||", "and", "or"):
+            return self._left_is_int(cond.left, env)
+        return False
+
     def x_OutputSpecExpr(self, e, env):
         cond = e.condition
         # bundle filter: (bundle CMP scalar) : out
@@ -416,7 +424,9 @@ class Sem:
                 return IntV(out.v if c.v != 0 else 0)
             # a constant after ':' is carried on the condition's own type (left-operand rule); an
             # all-integer condition cannot reach here
-            if isinstance(c, SigV):
+            # ... but only the LEFT operand of the (first) comparison can give it: `100 <= x` has an integer on
+            # the left, so the constant is carried on a compiler-chosen signal (SemanticAnalyzer._get_comparison_left_type)
+            if isinstance(c, SigV) and not self._left_is_int(cond, env):
                 return SigV(c.type, B.ite(truth, B.const(out.v), B.const(0)), c.implicit_id, note=c.note)
             return SigV(None, B.ite(truth, B.const(out.v), B.const(0)), self.fresh_implicit())
         if isinstance(out, SigV):
